@@ -330,6 +330,25 @@ def run(ctx):
                 c.require(tops <= 2 * (mi + 1) + 2, entry + ":iterations-exceed-maxiters", "%d F(x,z) evaluations with maxiters %d" % (tops, mi))
             except ValueError:
                 pass
+        if entry == "op" and len(call.cons) >= 2:
+            # a solve after an edit of the same object vs the same problem on a fresh object (whatever solve() keeps
+            # between calls must follow the edit)
+            from cvxopt.modeling import op as _op, dot as _dot
+            try:
+                call.op.delconstraint(call.cons[0])
+                call.op.solve(options=dict(QUIET))
+                ra = ("ok", freeze({"status": call.op.status, "x": call.x.value, "objective": call.op.objective.value()}))
+                fresh = _op(_dot(call.args["c"], call.x), call.cons[1:])
+                fresh.solve(options=dict(QUIET))
+                rb = ("ok", freeze({"status": fresh.status, "x": call.x.value, "objective": fresh.objective.value()}))
+            except Exception as e_:
+                ra = rb = None
+                ctx.count("op.edit-resolve.exception.%s" % type(e_).__name__)
+            if ra is not None:
+                ctx.count("op.edit-resolve-checks")
+                c.require(ra == rb, "op:solve-after-delconstraint-differs-from-fresh-op",
+                          "solve; delconstraint; solve on one op object differs from a fresh op with the remaining constraints (%s vs %s)"
+                          % (status_of(ra), status_of(rb)))
         c.cls("iso", entry, "v:" + name, json.dumps(sorted(opts.keys())))
         if c.k < 2:
             ctx.sample({"entry": entry, "options": opts, "result": status_of(r_kw), "invalid": [name, repr(val)]})
